@@ -233,3 +233,84 @@ func VerifH_C12_Augment() {
 	}
 	vrt.Assert(int(x.Status()) == wantStatus && int(y.Status()) == wantStatus && int(y.Child("z").Status()) == wantStatus, "c12.augment.status-applies-to-every-added-node")
 }
+
+// VerifH_C12_WhenNesting: a `when` (on an augment inside a uses, on the uses, or on a
+// node of the grouping) keeps its meaning — expression and evaluation context — when the
+// construct that carries it is wrapped in one or two more levels of grouping.
+func VerifH_C12_WhenNesting() {
+	placement := vrt.Choice("when-on", 3) // 0 augment inside the uses, 1 the uses, 2 a node inside the grouping
+	depth := 1 + vrt.Choice("extra-levels", 2)
+	cross := vrt.Bool("groupings-in-other-module")
+	inner := "grouping inner { container gc { leaf gcl { type string; } } leaf x { type string; } "
+	if placement == 2 {
+		inner += "leaf w { when \"../x = 'a'\"; type string; } "
+	}
+	inner += "} "
+	pfx := ""
+	if cross {
+		pfx = "lib:"
+	}
+	core := "uses " + pfx + "inner"
+	switch placement {
+	case 0:
+		core += " { augment gc { when \"../x = 'a'\"; leaf al { type string; } } }"
+	case 1:
+		core += " { when \"x = 'a'\"; }"
+	default:
+		core += ";"
+	}
+	// wrap the core in `depth` levels of groupings (defined where the inner grouping is)
+	wrappers := ""
+	use := core
+	for i := 1; i <= depth; i++ {
+		name := "wrap" + strconv.Itoa(i)
+		wrappers += "grouping " + name + " { " + use + " } "
+		use = "uses " + pfx + name + ";"
+	}
+	head := "module app { namespace 'urn:app'; prefix app; "
+	if cross {
+		head += "import lib { prefix lib; } "
+	}
+	direct, nested := map[string]string{}, map[string]string{}
+	if cross {
+		// inside lib the groupings refer to each other without prefix
+		libCore := "uses inner"
+		switch placement {
+		case 0:
+			libCore += " { augment gc { when \"../x = 'a'\"; leaf al { type string; } } }"
+		case 1:
+			libCore += " { when \"x = 'a'\"; }"
+		default:
+			libCore += ";"
+		}
+		libWrap, libUse := "", libCore
+		for i := 1; i <= depth; i++ {
+			name := "wrap" + strconv.Itoa(i)
+			libWrap += "grouping " + name + " { " + libUse + " } "
+			libUse = "uses " + name + ";"
+		}
+		lib := "module lib { namespace 'urn:lib'; prefix lib; " + inner + libWrap + "}"
+		direct["lib"], nested["lib"] = lib, lib
+		direct["app"] = head + "container c { " + core + " } }"
+		nested["app"] = head + "container c { " + use + " } }"
+	} else {
+		direct["app"] = head + inner + "container c { " + core + " } }"
+		nested["app"] = head + inner + wrappers + "container c { " + use + " } }"
+	}
+	vrt.Reach("c12.whennesting")
+	d, e1 := compileTexts(direct, featSet{}, nil)
+	n, e2 := compileTexts(nested, featSet{}, nil)
+	if e1 != nil || e2 != nil {
+		if e1 != nil {
+			vrt.Observe("direct-error", e1.Error())
+		}
+		if e2 != nil {
+			vrt.Observe("nested-error", e2.Error())
+		}
+		vrt.Assert(false, "c12.whennesting.both-compile")
+		return
+	}
+	dd, nd := dumpModelSet(d), dumpModelSet(n)
+	vrt.Observe("dump", dd)
+	vrt.Assert(dd == nd, "c12.whennesting.same-schema-at-every-nesting-depth")
+}
